@@ -191,6 +191,12 @@ func init() {
 	}, commonAssumptions...), HSpec{Pkg: appdbPkg, Func: "VerifHarness_C28_UpdatePrice", Tier: "quick", Configs: []map[string]int64{cfg("off", 0), cfg("off", 1), cfg("off", 0, "symbolicR0", 1), cfg("off", 1, "symbolicR0", 1)},
 		Bounds: "one price update; new USDT (or BIP) reserve and previous reward unbounded"})
 
+	add("C28", append([]string{
+		"update window: heights {721, 722, 1441, 1440}, block hours {11, 12, 14, 15} and gaps since the previous update {3h-1s, 3h, 3h+1s} are harness choices (block times are concrete in the engine: symbolic instants were measured too slow); the emission relative to the cap is symbolic",
+	}, blockAssumptions...), HSpec{Pkg: minterPkg, Func: "VerifHarness_C28_RewardWindow", Tier: "quick",
+		Bounds: "one BeginBlock per (height, hour, gap) choice; emission unbounded"})
+	add("C07", blockAssumptions, HSpec{Pkg: minterPkg, Func: "VerifHarness_C28_RewardWindow", Tier: "quick", Bounds: "one BeginBlock per (height, hour, gap) choice; no panic"})
+
 	// ---------------------------------------------------------- C09 app DB
 	add("C09", append([]string{
 		"app-DB layer: the key-value store under AppDB is a correct durable map (KVModel); rlp and tmjson as field boxes",
